@@ -363,6 +363,11 @@ def _damage_case(plan, scratch, seed, snap, st, rows, count, case) -> dict:
                 nontriv = True
             continue
         same = (rec.get("count") == count) if api == "row_count" else (rec.get("rows") == _want(rows, op))
+        if must_raise and not verifiable and kind == "DATA" and same:
+            # the legacy (checksum-less) file is only PARSED, never hashed: a read that returns exactly the undamaged answer did
+            # not touch the damaged bytes (column projection, footer-only paths) - "the damage is outside what the read touches"
+            sim.probe("unverifiable_file_damage_untouched")
+            continue
         if not must_raise:
             if not reads_file and same:
                 sim.probe("same_answer_allowed")
